@@ -25,6 +25,22 @@ def gen(rng, tier):
             s.loads = []
         s.meta = {"kind": "short-bar"}
         cases.append(core.case_from_struct(s, Weight=False))
+    # bars that are almost, but not quite, parallel to an axis (a column 0.03 mm out of plumb over 3 m, a cambered beam): the nodes lie on
+    # the bar's own axis and the last one at the bar's end, not on the vertical or horizontal through its start
+    for i in range(8 if tier == "quick" else 80):
+        s = G.gen_single_bar(rng)
+        b = s.bars[0]
+        (x1, y1, c1), (x2, y2, c2) = s.nodes[b["n1"]], s.nodes[b["n2"]]
+        L = Fr(rng.choice([3, 30, 300]))
+        off = L * Fr(rng.choice(["0.00001", "0.000003", "0.0000002", "0.00000001"])) * rng.choice([-1, 1])
+        if i % 2 == 0:
+            s.nodes[b["n2"]] = (x1 + off, y1 + L * rng.choice([-1, 1]), c2)
+        else:
+            s.nodes[b["n2"]] = (x1 + L * rng.choice([-1, 1]), y1 + off, c2)
+        if i % 4 < 2:
+            s.loads = []
+        s.meta = {"kind": "near-axis"}
+        cases.append(core.case_from_struct(s, Weight=core.weights(i)))
     return cases
 
 
